@@ -665,8 +665,8 @@ impl CatWorld {
             }
             for path in ["/personal-access-tokens", "/streams", "/users"] {
                 let (st, _) = raw_http(addr, "GET", path, Some(&bearer), "").await?;
-                if st != 401 {
-                    return Err(format!("GET {path} with the access token of a session that had logged out was answered with HTTP {st}, not 401"));
+                if st != 401 && st != 403 {
+                    return Err(format!("GET {path} with the access token of a session that had logged out was answered with HTTP {st}, not 401/403"));
                 }
             }
             Ok(())
